@@ -4,14 +4,21 @@
 //! trusted: env: trait ChannelSigner reduced to get_per_commitment_point (result unconstrained = any signer behaviour); PublicKey opaque 33-byte value; Secp256k1/All/Logger opaque
 //! assume: next_transaction_number >= 2 when advance is called (commitment numbers count down from 2^48-1; a channel never reaches 0)
 //! assume: Logger callbacks do not panic (R3)
+//! plemma: C05 call-site precondition of ChannelSigner::release_commitment_secret in get_last_revoke_and_ack: the only secret requested from the signer is that of commitment next_transaction_number + 2 (the commitment before the current one), never the current or a future one
+//! trusted: u05c: FundedChannel/ChannelContext are self skeletons with exactly the fields get_last_revoke_and_ack reads (R5); InboundHTLCState::should_hold_htlc external_body (unconstrained); BlindedMessagePath, ChannelId opaque; R14 folds the const initialiser (1 << 48) - 1
 use vstd::prelude::*;
 verus! {
 #[derive(Clone, Copy)] pub struct PublicKey(pub [u8; 33]);
 pub struct All {}
 pub struct Secp256k1<T> { pub t: T }
 pub trait Logger {}
+// the commitment number whose secret may be released right now (numbers count down): fixed by the caller's precondition
+pub uninterp spec fn releasable(idx: u64) -> bool;
 pub trait ChannelSigner {
     fn get_per_commitment_point(&self, idx: u64, secp_ctx: &Secp256k1<All>) -> Result<PublicKey, ()>;
+    // (P) trace obligation: every call site must show the index is the releasable one
+    fn release_commitment_secret(&self, idx: u64) -> Result<[u8; 32], ()>
+        requires releasable(idx);
 }
 //@extract lightning/src/ln/channel.rs :: struct HolderCommitmentPoint
 //@end
@@ -30,6 +37,16 @@ impl HolderCommitmentPoint {
     self.next_transaction_number < u64::MAX
 //@ensures A current-is-next-plus-one
     r == self.next_transaction_number + 1
+//@end
+//@extract lightning/src/ln/channel.rs :: impl HolderCommitmentPoint :: fn next_transaction_number
+//@ret r
+//@ensures A
+    r == self.next_transaction_number
+//@end
+//@extract lightning/src/ln/channel.rs :: impl HolderCommitmentPoint :: fn next_point
+//@ret r
+//@ensures A
+    r == self.next_point
 //@end
 //@extract lightning/src/ln/channel.rs :: impl HolderCommitmentPoint :: fn try_resolve_pending
 //@strip secp256k1
@@ -62,6 +79,43 @@ impl HolderCommitmentPoint {
     previous_revoked_point: self.last_revoked_point,
 //@with
     previous_revoked_point: self.previous_revoked_point,
+//@end
+}
+
+// ---------------- u05c: which revocation secret is released ----------------
+//@extract lightning/src/ln/channel.rs :: const INITIAL_COMMITMENT_NUMBER
+//@fold
+//@end
+#[derive(Clone, Copy)] pub struct ChannelId(pub [u8; 32]);
+pub struct BlindedMessagePath {}
+pub struct InboundHTLCState {}
+impl InboundHTLCState { #[verifier::external_body] fn should_hold_htlc(&self) -> bool { unimplemented!() } }
+pub struct InboundHTLCOutput { pub htlc_id: u64, pub state: InboundHTLCState }
+//@extract lightning/src/ln/msgs.rs :: struct RevokeAndACK
+//@end
+pub struct ChannelContext<S: ChannelSigner> { pub holder_signer: S, pub secp_ctx: Secp256k1<All>, pub pending_inbound_htlcs: Vec<InboundHTLCOutput>, pub signer_pending_revoke_and_ack: bool, pub channel_id: ChannelId }
+pub struct FundedChannel<S: ChannelSigner> { pub context: ChannelContext<S>, pub holder_commitment_point: HolderCommitmentPoint }
+
+impl<S: ChannelSigner> FundedChannel<S> {
+//@extract lightning/src/ln/channel.rs :: impl FundedChannel :: fn get_last_revoke_and_ack
+//@strip msgs
+//@ret r
+//@requires
+    old(self).holder_commitment_point.next_transaction_number <= INITIAL_COMMITMENT_NUMBER - 2,
+    old(self).holder_commitment_point.next_transaction_number >= 1,
+    // the commitment that may be revoked now is the one before the current one: current = next + 1, revoked = next + 2
+    releasable((old(self).holder_commitment_point.next_transaction_number + 2) as u64),
+    forall|i: u64| i != old(self).holder_commitment_point.next_transaction_number + 2 ==> !releasable(i),
+    forall|id: u64| path_for_release_htlc.requires((id,)),
+//@ensures P C05 revoke_and_ack-carries-the-next-point-and-never-changes-the-commitment-number
+    r is Some ==> r->Some_0.next_per_commitment_point == old(self).holder_commitment_point.next_point,
+    final(self).holder_commitment_point.next_transaction_number == old(self).holder_commitment_point.next_transaction_number,
+//@loop 1
+    invariant forall|id: u64| path_for_release_htlc.requires((id,)),
+//@mutant releases_secret_of_the_current_commitment
+    .release_commitment_secret(self.holder_commitment_point.next_transaction_number() + 2)
+//@with
+    .release_commitment_secret(self.holder_commitment_point.next_transaction_number() + 1)
 //@end
 }
 }
